@@ -214,19 +214,7 @@ def ident_case(ctx, mode, fam, k, j, kind, tag, same, extra=None):
     ctx.count("%s:identity:%s" % (mode, kind))
     if not same:
         case["observed"] = "distinct-ctype-objects"
-        _fail(ctx, dict(case, **(extra or {})), "%s: typeof(%r) through module %d is not the object module %d has" % (mode, tag, k, j))
-
-
-def _fail(ctx, case, detail):
-    """ctx.fail, except that this builder's finding is only logged and counted while its line is not yet in
-    KNOWN_FINDINGS.jsonl (reported in the final report)."""
-    if CLASSES[FINDING](case) and not any(f["class"] == FINDING for f in ctx.open_findings):
-        key = "finding-not-yet-registered:" + FINDING
-        ctx.count(key)
-        if ctx.distribution[key] == 1:
-            common.log("KNOWN (not yet in KNOWN_FINDINGS.jsonl) %s: %s" % (FINDING, detail))
-        return
-    ctx.fail(case, detail)
+        ctx.fail(dict(case, **(extra or {})), "%s: typeof(%r) through module %d is not the object module %d has" % (mode, tag, k, j))
 
 
 def typeof_or_none(ffi, tag):
